@@ -156,6 +156,16 @@ func superlativeByComparison(d *dataTreeNavigator, context Context, prefs compar
 		result := splatted.MatchingNodes.Front()
 		if result != nil {
 			for el := result.Next(); el != nil; el = el.Next() {
+				candidateIsNull := el.Value.(*CandidateNode).guessTagFromCustomType() == "!!null"
+				bestIsNull := result.Value.(*CandidateNode).guessTagFromCustomType() == "!!null"
+				if candidateIsNull != bestIsNull {
+					// < and > answer false for null on either side, which would make the outcome depend on where the
+					// null stands; as sort orders them, null comes before everything else
+					if prefs.Greater == bestIsNull {
+						result = el
+					}
+					continue
+				}
 				cmp, err := fn(d, context, el.Value.(*CandidateNode), result.Value.(*CandidateNode))
 				if err != nil {
 					return Context{}, err
